@@ -11,12 +11,22 @@
 (*  init  members = node ids in the listing order given to NewConsistentHashing*)
 (*  add   node  = id of the destination added with route.Add                   *)
 (*  del   slot  = index passed to route.DelDestination                         *)
+(*  upd   slot, node: route.UpdateDestination(slot, addr=<address of node>)    *)
+(*        with an address that accepts connections (a listener of the driver): *)
+(*        the destination in that slot now is `node` (the same node as before  *)
+(*        when only the port changed)                                          *)
+(*  updno slot: the same call with an address that refuses connections: the    *)
+(*        destination keeps its address (Destination.updateConn takes an       *)
+(*        address over only after a successful dial), the member set is the    *)
+(*        same                                                                 *)
 (*  ring  the ring the route dispatches with (hook VerifRing), entries         *)
 (*        [position, destination index, node id of (Hostname, Instance)],      *)
 (*        ndest = number of destinations of the same snapshot, dl = the node   *)
 (*        ids of the route's destination list (GetDestination(0..))            *)
 (*  disp  every key dispatched once; got[i] = the [slot, delta] pairs of the   *)
-(*        destinations whose conn_down_no_spool counter moved for key i        *)
+(*        destinations that accounted for key i: drop counter (no connection)  *)
+(*        or line received by the listener the destination is configured for;  *)
+(*        slot < 0 = a listener no destination of the route is configured for  *)
 (* Accepted iff every line is matched.  A line that is not matched is the     *)
 (* verdict: ring = the route's ring is not Carbon's ring for the member set;  *)
 (* disp = a key went to no / several / another destination than Carbon's, or  *)
@@ -32,7 +42,7 @@ VARIABLES l,
           ring,   \* <<position, node id>> entries; <<>> until reported after a change
           own,    \* owner of each key at the last dispatch (<<>> = not dispatched since the last change)
           prev,   \* owners before the last membership change (<<>> = unknown)
-          last    \* <<"none"|"init"|"add"|"del", node>>
+          last    \* <<"none"|"init"|"add"|"del", node>> | <<"upd", old node, new node>>
 tvars == <<l, nt, kp, dests, ring, own, prev, last>>
 
 ASSUME TLCSet(1, 0)
@@ -74,6 +84,20 @@ TDel ==
     /\ prev' = own /\ own' = <<>> /\ ring' = <<>> /\ last' = <<"del", dests[Ev.slot + 1]>>
     /\ UNCHANGED <<nt, kp>>
 
+TUpd ==
+    /\ Is("upd") /\ Holds(last[1] # "none")
+    /\ Holds(Ev.slot + 1 \in DOMAIN dests /\ Ev.node \in DOMAIN nt)
+    /\ Holds(Ev.node \notin (Range(dests) \ {dests[Ev.slot + 1]}))
+    /\ dests' = [dests EXCEPT ![Ev.slot + 1] = Ev.node]
+    /\ prev' = own /\ own' = <<>> /\ ring' = <<>> /\ last' = <<"upd", dests[Ev.slot + 1], Ev.node>>
+    /\ UNCHANGED <<nt, kp>>
+
+TUpdNo ==
+    /\ Is("updno") /\ Holds(last[1] # "none")
+    /\ Holds(Ev.slot + 1 \in DOMAIN dests)
+    /\ prev' = own /\ own' = <<>> /\ ring' = <<>> /\ last' = <<"upd", dests[Ev.slot + 1], dests[Ev.slot + 1]>>
+    /\ UNCHANGED <<nt, kp, dests>>
+
 (* the reported ring must be Carbon's ring of the current member set, and its destination
    indexes must point at the destinations the entries belong to *)
 RingOK ==
@@ -89,8 +113,7 @@ TRing ==
    a key changes owner only as the last membership change requires *)
 OneOwner(g) == Len(g) = 1 /\ g[1][2] = 1 /\ g[1][1] + 1 \in DOMAIN dests
 OwnerSeen(g) == dests[g[1][1] + 1]
-MoveOK(i, o) ==
-    (prev # <<>> /\ o # prev[i]) => IF last[1] = "add" THEN o = last[2] ELSE last[1] = "del" /\ prev[i] = last[2]
+MoveOK(i, o) == (prev # <<>> /\ o # prev[i]) => MoveAllowedBy(last, prev[i], o)
 KeyOK(i) ==
     /\ OneOwner(Ev.got[i])
     /\ OwnerSeen(Ev.got[i]) = LookupSeq(ring, kp[i])
@@ -115,10 +138,11 @@ TDispBad ==
     /\ UNCHANGED tvars
 TRingBad ==
     /\ l <= Len(TLog) /\ Ev.ev = "ring" /\ Holds(~(dests # <<>> /\ RingOK))
-    /\ PrintT("@@BAD " \o ToJson([line |-> l, key |-> 0, ndest |-> Ev.ndest, dests |-> dests, len |-> Len(Ev.ring)]))
+    /\ PrintT("@@BAD " \o ToJson([line |-> l, key |-> 0, ndest |-> Ev.ndest, dests |-> dests, dl |-> Ev.dl,
+                                 len |-> Len(Ev.ring), last |-> last]))
     /\ UNCHANGED tvars
 
-TNext == THist \/ TInitRoute \/ TAdd \/ TDel \/ TRing \/ TDisp \/ TDispBad \/ TRingBad
+TNext == THist \/ TInitRoute \/ TAdd \/ TDel \/ TUpd \/ TUpdNo \/ TRing \/ TDisp \/ TDispBad \/ TRingBad
 TSpec == TInit /\ [][TNext]_tvars
 
 HighWater == TLCSet(1, IF l - 1 > TLCGet(1) THEN l - 1 ELSE TLCGet(1))
